@@ -10,6 +10,8 @@ use crate::gen::plan::{err_spec, response};
 use crate::na::NaDev;
 use crate::rec::{LogDev, Pull, PullAs, UnitPlan};
 use crate::{ensure, fail};
+#[allow(unused_imports)]
+use crate::engine::Failure;
 use arrayvec::ArrayVec;
 use proptest::prelude::*;
 use scpi::error::Error;
@@ -192,7 +194,33 @@ fn case_strategy() -> impl Strategy<Value = Case> {
     })
 }
 
+/// The mandated commands on the minimal device with a fixed-capacity queue and a
+/// fixed-capacity response buffer must not allocate either.
+fn check_contrib(h: &crate::props::status_common::History, obs: &Obs) -> CheckResult {
+    use crate::dev488::{MinDev, MIN_TREE};
+    use crate::props::status_common::render_step;
+    let mut dev = MinDev::new(true);
+    let mut runs = 0;
+    for (si, step) in h.steps.iter().enumerate() {
+        dev.tst = step.tst;
+        let bytes = render_step(step);
+        let mut ctx = Context::default();
+        ctx.mav = step.mav;
+        let mut resp: ArrayVec<u8, 96> = ArrayVec::new();
+        let before = alloc_count::count();
+        let res = MIN_TREE.run(&bytes, &mut dev, &mut ctx, &mut resp);
+        let after = alloc_count::count();
+        runs += 1;
+        ensure!(after == before, "heap-allocation", "step {si} {:?}: {} heap allocation call(s) during Node::run on the minimal SCPI device (result {:?})", escape(&bytes), after - before, res.map_err(|e| e.get_code()));
+    }
+    obs.label("contrib history");
+    obs.nontrivial_if(h.steps.len() >= 2, h);
+    obs.executions(runs);
+    Ok(())
+}
+
 fn run(e: &Engine) {
+    e.proptest("mandated-commands-allocation", e.tier.pick(20_000, 400_000), || crate::props::status_common::history([6, 4, 4, 2, 2], 12, 0), check_contrib);
     e.proptest("every-capacity-and-allocation", e.tier.pick(40_000, 1_000_000), case_strategy, check);
     e.require_fraction("message succeeds", "allocation-counted run", 0.1);
     for l in ["capacity too small", "capacity sufficient", "message fails"] {
